@@ -4,13 +4,15 @@
    monitors  C10.inrange / C10.monotone / C04.noraise on the returned values;
    conformance: Upd(Ranges(script)) reproduces every returned value and the
    script is a valid edit script for the two lengths. *)
-EXTENDS SpanUpdater, Json, IOUtils, TLC
+EXTENDS SpanUpdater, Json, IOUtils, TLC, Hits
 Traces == JsonDeserialize(IOEnv.TRACE_FILE)
 NT == Len(Traces)
 VARIABLES tid, bucket
 NB == 64
 T(t) == Traces[t]
-Clauses == {"C04.noraise", "C10.inrange", "C10.monotone", "C10.startend"}
+ClauseSeq == <<"C04.noraise", "C10.inrange", "C10.monotone", "C10.startend">>
+Clauses == {ClauseSeq[ci] : ci \in DOMAIN ClauseSeq}
+ASSUME PrintT(<<"CLAUSES", ToJson(ClauseSeq)>>)
 Holds(cl, t) ==
   LET tr == T(t) IN
   IF tr.raised # "" THEN cl # "C04.noraise"
@@ -24,7 +26,14 @@ Holds(cl, t) ==
 TInit == tid = 0 /\ bucket \in 0..(NB - 1)
 TNext == tid = 0 /\ (\E t \in {x \in 1..NT : x % NB = bucket} : tid' = t) /\ UNCHANGED bucket
 TSpec == TInit /\ [][TNext]_<<tid, bucket>>
-Judge == tid # 0 => \A cl \in Clauses : Holds(cl, tid) \/ PrintT(<<"FAIL", tid, cl>>)
+Exercised(cl, t) ==
+  LET tr == T(t) IN
+  IF cl = "C04.noraise" THEN TRUE
+  ELSE IF tr.raised # "" THEN FALSE
+  ELSE \* a non-trivial translation: the two texts differ and there are at least two offsets
+       tr.la >= 1 /\ (tr.la # tr.lb \/ \E x \in 1..(tr.la + 1) : tr.right[x] # x - 1 \/ tr.left[x] # x - 1)
+Judge == tid # 0 => (/\ \A cl \in Clauses : Holds(cl, tid) \/ PrintT(<<"FAIL", tid, cl>>)
+   /\ PrintT(<<"HIT", tid, Mask([ci \in DOMAIN ClauseSeq |-> Exercised(ClauseSeq[ci], tid)])>>))
 Conform == (tid # 0 /\ T(tid).raised = "") =>
    LET tr == T(tid)  rs == Ranges(tr.script) IN
    ( /\ LenBefore(tr.script) = tr.la /\ LenAfter(tr.script) = tr.lb
